@@ -1,6 +1,7 @@
 import AFModel.Passing
 import AFModel.WidthCfg
 import AFModel.PassRoutes
+import AFModel.PassPlace
 import AFProofs.Lemmas.Persist
 import AFProofs.Lemmas.WidthCfg
 import AFProofs.Lemmas.PassRoutes
@@ -574,5 +575,113 @@ theorem result_route_same_arguments (po : PassOps V) (dflt z : V) (cs : List (Co
 example : uniquePaths t₀ = [["g", "b"], ["h"]] ∧ allPaths t₀ = [[["g", "b"]], [["g", "a"], ["h"]]] ∧
     keysOwnGroups (uniquePaths t₀) (allPaths t₀) = true ∧
     resultVector t₀ [(-4 : Int), 6] = [some (-4), some 6] := by decide
+
+end AF.C12
+
+
+/-! ## which class and attribute name a parameter is configured by (`AFModel/PassPlace.lean`) -/
+
+namespace AF.C12
+open AF
+
+variable {V V' : Type}
+
+theorem placesFromTree_length (classes : List (String × ClsTree)) (t : Node V') (owns : List (Option (Bool × V)))
+    (hown : owns.length = count t) : (placesFromTree classes t owns).length = count t := by
+  simp [placesFromTree, placeKeys, count, hown]
+
+/-- the place of the i-th parameter: the class `prior_class_dict` ends up with (last write), the name
+of its last place (the collection's name for a position), its own modifier -/
+theorem place_of_parameter (classes : List (String × ClsTree)) (t : Node V') (owns : List (Option (Bool × V)))
+    (hown : owns.length = count t) (i : Nat) (hi : i < count t) :
+    (placesFromTree classes t owns)[i]'(by rw [placesFromTree_length classes t owns hown]; exact hi) =
+      { cls := (((classOfId t ((uniqueIds t)[i]'hi)).bind (fun c => classes.lookup c)).getD (.node [] [])),
+        attr := (placeName ((lastPlace (pathPriors t) ((uniqueIds t)[i]'hi)).getD [])).toList,
+        own := owns[i]'(hown ▸ hi) } := by
+  simp only [placesFromTree, placeKeys, List.getElem_map, List.getElem_zip]
+  rfl
+
+/-- **Every parameter receives the prior derived from its own inferred value under the configuration
+the model looks up for the class and attribute name it derives from the composition** - nothing about
+the configuration is handed over by the harness any more. -/
+theorem passed_prior_place_config (po : PassOps V) (dflt : V) (cs : List (Config V)) (mode : PassMode V)
+    (classes : List (String × ClsTree)) (t : Node V') (olds : List (PD V)) (owns : List (Option (Bool × V)))
+    (xs : List (V × V)) (ho : olds.length = count t) (hown : owns.length = count t) (hx : xs.length = count t)
+    (i : Nat) (hi : i < count t) :
+    lookupArg (passArgsCfg po dflt cs mode t olds (placesFromTree classes t owns) xs) ((uniqueIds t)[i]'hi) =
+      some (derive po mode (olds[i]'(ho ▸ hi))
+        (resolveCfg dflt cs ((placesFromTree classes t owns)[i]'(by
+          rw [placesFromTree_length classes t owns hown]; exact hi)))
+        (xs[i]'(hx ▸ hi)).1 (xs[i]'(hx ▸ hi)).2) :=
+  passed_prior_own_config po dflt cs mode t olds _ xs ho (placesFromTree_length classes t owns hown) hx i hi
+
+theorem lastWrite_const (l : List (Nat × String)) (c : String) (id : Nat)
+    (hall : ∀ e ∈ l, e.2 = c) (hex : ∃ e ∈ l, e.1 = id) :
+    ((l.reverse.find? (·.1 == id)).map (·.2)) = some c := by
+  cases h : l.reverse.find? (·.1 == id) with
+  | none =>
+    obtain ⟨e, he, hid⟩ := hex
+    have := List.find?_eq_none.mp h e (List.mem_reverse.mpr he)
+    simp [hid] at this
+  | some e =>
+    have he : e ∈ l := List.mem_reverse.mp (List.mem_of_find?_eq_some h)
+    simp [hall e he]
+
+theorem lastWrite_isSome (l : List (Nat × String)) (id : Nat) (hex : ∃ e ∈ l, e.1 = id) :
+    ((l.reverse.find? (·.1 == id)).map (·.2)).isSome = true := by
+  cases h : l.reverse.find? (·.1 == id) with
+  | none =>
+    obtain ⟨e, he, hid⟩ := hex
+    have := List.find?_eq_none.mp h e (List.mem_reverse.mpr he)
+    simp [hid] at this
+  | some e => simp
+
+/-- a component whose attributes hold no further components: every parameter below it (direct,
+in a tuple) is configured by the component's own class -/
+theorem classOfId_flat_model (cls : String) (ctor : List String) (attrs : List (String × Node V'))
+    (hflat : classDictKids attrs = []) (id : Nat) (hid : id ∈ (walkAttrs attrs).map (·.2)) :
+    classOfId (.model cls ctor attrs) id = some cls := by
+  unfold classOfId
+  simp only [classDict, hflat, List.append_nil]
+  apply lastWrite_const
+  · intro e he
+    obtain ⟨w, _, rfl⟩ := List.mem_map.mp he
+    rfl
+  · obtain ⟨w, hw, rfl⟩ := List.mem_map.mp hid
+    exact ⟨(w.2, cls), List.mem_map.mpr ⟨w, hw, rfl⟩, rfl⟩
+
+/-- under a component every parameter has a class (no `KeyError`), whatever is nested below -/
+theorem classOfId_isSome_model (cls : String) (ctor : List String) (attrs : List (String × Node V'))
+    (id : Nat) (hid : id ∈ (walkAttrs attrs).map (·.2)) :
+    (classOfId (.model cls ctor attrs) id).isSome = true := by
+  unfold classOfId
+  apply lastWrite_isSome
+  obtain ⟨w, hw, rfl⟩ := List.mem_map.mp hid
+  exact ⟨(w.2, cls), by simp only [classDict]; exact List.mem_append_left _ (List.mem_map.mpr ⟨w, hw, rfl⟩), rfl⟩
+
+/-- a parameter a collection holds directly is configured as `ModelInstance`, even when a component
+of the collection shares it (the collection writes last) -/
+theorem classOfId_collection_direct (attrs : List (String × Node V')) (id : Nat) (hid : id ∈ directPriorIds attrs) :
+    classOfId (.coll attrs) id = some "ModelInstance" := by
+  unfold classOfId
+  simp only [classDict, List.reverse_append, List.find?_append]
+  have := lastWrite_const ((directPriorIds attrs).map (fun i => (i, "ModelInstance"))) "ModelInstance" id
+    (by intro e he; obtain ⟨w, _, rfl⟩ := List.mem_map.mp he; rfl)
+    ⟨(id, "ModelInstance"), List.mem_map.mpr ⟨id, hid, rfl⟩, rfl⟩
+  cases h : ((directPriorIds attrs).map (fun i => (i, "ModelInstance"))).reverse.find? (·.1 == id) with
+  | none => simp [h] at this
+  | some e => simp [h] at this ⊢; exact this
+
+theorem placeName_position (pre : Path) (m n : String) :
+    placeName (pre ++ [m, n]) = if isDigits n then m else n := by
+  simp [placeName]
+
+/-- non-vacuity: parameter 7 is `g.a` (class P2) and the collection's own `h`: the collection writes
+last; parameter 3 is `g.b` only -/
+example : (placeKeys t₀).map (·.1) = [some "P2", some "ModelInstance"] := by decide
+example : classDictKids (V := Int) [("a", .prior 7), ("b", .prior 3)] = [] := by decide
+-- tests (compiler-evaluated; string functions do not reduce in the kernel)
+#guard placeKeys t₀ == [(some "P2", "b"), (some "ModelInstance", "h")]
+#guard placeName ["galaxies", "0"] == "galaxies" && placeName ["0"] == "0" && placeName ["g", "pos", "pos_0"] == "pos_0"
 
 end AF.C12
